@@ -20,14 +20,15 @@ def case(task):
     out = {'evals': 1, 'violations': [], 'outcomes': {}}
     # the real run on a copy
     ws.make_ws(root, files, patches, lines)
-    real = ws.run_rq(root, wsweep.cfg_args(cfg), threads=cfg['threads'], trace=os.path.join(d, 'trace'))
+    pol = {'RQ_VERIF_POLICY': cfg['policy']} if cfg.get('policy') else None
+    real = ws.run_rq(root, wsweep.cfg_args(cfg), threads=cfg['threads'], trace=os.path.join(d, 'trace'), preload_env=pol)
     # the dry run
     ws.make_ws(root, files, patches, lines)
     before = ws.snapshot(root, meta=True, skip=())
     if os.path.exists(log):
         os.unlink(log)
     dcfg = dict(cfg, dry=True)
-    dry = ws.run_rq(root, wsweep.cfg_args(dcfg), threads=cfg['threads'], preload_env=fsmon.env(log))  # no scheduler trace file: it would show up in the monitor log
+    dry = ws.run_rq(root, wsweep.cfg_args(dcfg), threads=cfg['threads'], preload_env=dict(fsmon.env(log), **(pol or {})))  # no scheduler trace file: it would show up in the monitor log
     after = ws.snapshot(root, meta=True, skip=())
     w = lambda extra: wsweep.witness(m0, series, dcfg, extra, names)
     out['outcomes']['exit-' + dry.cls] = 1
@@ -58,6 +59,10 @@ def run(tier, seed):
         series = tq.with_patch_options(tq.enumerate_series(3, 1, allow_after_failure=1), 1) + tq.enumerate_series(2, 2, allow_after_failure=1)
         cfgs = [{'threads': t, 'backup': b, 'quiet': q} for t in (1, 2, 3) for b in ('always', 'never', None) for q in (True, False)]
     tasks = [(m0, s, c) for s in series for c in cfgs]
+    # series with several failing patches / several deviations, with the parallel driver under both serial worker orders
+    import props.c06 as c06
+    multi = tq.special_series(m0) + [w[1] for w in c06.workloads(tier)[1]]
+    tasks += [(m0, s, {'threads': t, 'backup': b, 'quiet': True, 'policy': pol}) for s in multi for t in (1, 2, 3) for b in ('always', None) for pol in ((None,) if t == 1 else (None, 'high'))]
     acc = wsweep.Acc(res)
     for i, r in enumerate(wsweep.pmap(case, tasks)):
         if i % 1999 == 0:
